@@ -11,6 +11,7 @@ CONSTANTS
   MaxReorgs = 2
   MaxIdx = 2
   MaxFails = 2
+  InitDuties = FALSE
   Weaken = "none"
 INVARIANT TypeOK
 INVARIANT AtMostOnce
